@@ -243,8 +243,13 @@ Move(s, from, to, d, amt) ==
     [s EXCEPT !.bal = [@ EXCEPT ![from] = [@ EXCEPT ![d] = @ - amt], ![to] = [@ EXCEPT ![d] = @ + amt]],
               !.exists = @ \cup {to}]
 
+\* module accounts are blocked receivers (app.BlockedAddresses): nobody can put coins - or an ordinary account - at the burn MODULE address,
+\* which x/burn creates as a module account on its first burn
+Blocked == {BurnMod, FeeColl}
+
 BankSend(m, s, now, total) ==
-    IF SpendableAt(s, m.from, m.denom, now) < total THEN Fail(s, "sdk/5")
+    IF m.to \in Blocked THEN Fail(s, "sdk/4")
+    ELSE IF SpendableAt(s, m.from, m.denom, now) < total THEN Fail(s, "sdk/5")
     ELSE Ok(Move(s, m.from, m.to, m.denom, total))
 
 VestingCreate(m, s, now) ==
